@@ -216,7 +216,8 @@ where
 
     // All limbs of a that would fall outside of the limbs of res are discarded,
     // but the carry still need to be computed.
-    for j in 0..steps {
+    // (A shift beyond the precision of res discards every limb: `steps` may exceed `size`.)
+    for j in 0..steps.min(size) {
         if j == 0 {
             ZNXARI::znx_normalize_first_step_carry_only(base2k, lsh, res.at(res_col, size - j - 1), carry);
         } else {
@@ -230,18 +231,22 @@ where
     }
 
     // Continues with shifted normalization
-    for j in 0..size - steps {
+    for j in 0..size.saturating_sub(steps) {
         ZNXARI::znx_copy(tmp, res.at(res_col, size - steps - j - 1));
         ZNXARI::znx_normalize_middle_step_assign(base2k, lsh, tmp, carry);
         ZNXARI::znx_copy(res.at_mut(res_col, size - j - 1), tmp);
     }
 
     // Propagates carry on the rest of the limbs of res
-    for j in 0..steps {
+    for j in 0..steps.min(size) {
         ZNXARI::znx_zero(res.at_mut(res_col, j));
     }
     for j in 0..steps {
-        if j == steps - 1 {
+        if steps - j - 1 >= size {
+            // Vacated position below the precision of res: the carry only passes through it.
+            ZNXARI::znx_zero(tmp);
+            ZNXARI::znx_normalize_middle_step_carry_only(base2k, lsh, tmp, carry);
+        } else if j == steps - 1 {
             ZNXARI::znx_normalize_final_step_assign(base2k, lsh, res.at_mut(res_col, steps - j - 1), carry);
         } else {
             ZNXARI::znx_normalize_middle_step_assign(base2k, lsh, res.at_mut(res_col, steps - j - 1), carry);
@@ -276,6 +281,10 @@ pub fn vec_znx_rsh<R, A, ZNXARI, const OVERWRITE: bool>(
     let res_size: usize = res.size();
     let a_size: usize = a.size();
 
+    // `carry` holds vec_znx_rsh_tmp_bytes: the running carry and one limb of workspace.
+    let n: usize = res.n();
+    let (carry, zero) = carry[..2 * n].split_at_mut(n);
+
     let mut steps: usize = k / base2k;
     let k_rem: usize = k % base2k;
 
@@ -305,6 +314,12 @@ pub fn vec_znx_rsh<R, A, ZNXARI, const OVERWRITE: bool>(
 
     if a_out_range == 0 {
         ZNXARI::znx_zero(carry);
+    }
+
+    // A shift beyond the precision of res: the carry passes through the vacated positions below res.
+    for _ in res_size..steps {
+        ZNXARI::znx_zero(zero);
+        ZNXARI::znx_normalize_middle_step_carry_only(base2k, lsh, zero, carry);
     }
 
     if OVERWRITE {
@@ -367,6 +382,10 @@ where
     let res_size: usize = res.size();
     let a_size: usize = a.size();
 
+    // `carry` holds vec_znx_rsh_tmp_bytes: the running carry and one limb of workspace.
+    let n: usize = res.n();
+    let (carry, zero) = carry[..2 * n].split_at_mut(n);
+
     let mut steps: usize = k / base2k;
     let k_rem: usize = k % base2k;
 
@@ -391,6 +410,12 @@ where
 
     if a_out_range == 0 {
         ZNXARI::znx_zero(carry);
+    }
+
+    // A shift beyond the precision of res: the carry passes through the vacated positions below res.
+    for _ in res_size..steps {
+        ZNXARI::znx_zero(zero);
+        ZNXARI::znx_normalize_middle_step_carry_only(base2k, lsh, zero, carry);
     }
 
     let mid_range: usize = res_start.saturating_sub(res_end);
